@@ -13,10 +13,12 @@
   every injective `ρ`, every `δ`, every set of locks held by others, every history of events on
   registered models and of configuration changes (`regen`).
 
-  Two predefined class families do NOT have the property on the pinned tree (known findings
-  F-C15-locked-graph-getstate-shadowed, F-C15-async-queued-model-stale-queue-dict): the full-strength
-  statements `C15_full` / `C15_tables_full` stay visible, `…_partial` carries the exclusion `k.rekeys`,
-  `…_counterexample_*` prove the negation on witnesses by `decide`.
+  History: on the tree as first pinned two class families did not have the property (the locked graph
+  classes: `GraphMachine.__getstate__/__setstate__` shadowed `LockedMachine`'s; async `queued='model'`:
+  `_transition_queue_dict` pickled with the old ids).  Both were repaired in /repo (5a2e4e5, a9d9f62); the
+  model follows the repaired code and the full-strength statements `C15_full` / `C15_tables_full` are
+  theorems.  The former counterexample witnesses are kept below as regression `example`s (and as
+  harness cases under `corpus/C15/`).
 -/
 import Proofs.C15
 
@@ -36,25 +38,34 @@ def Pickle.TablesRekeyed (k : Kind) : Prop :=
   ∀ (ρ : Nat → Nat), Inj ρ → ∀ M : PM, ∀ m ∈ M.models,
     (k.locked = true → (alookup (ρ m) (roundtrip k ρ M).ctx) = some ((lookupD m M.ctx).map ρ)) ∧
     (k.graph = true → alookup (ρ m) (roundtrip k ρ M).graphs = some (M.stateOf m + 1)) ∧
-    (k.qmodel = true → (alookup (ρ m) (roundtrip k ρ M).qdict).isSome = (alookup m M.qdict).isSome)
+    (k.qmodel = true → alookup (ρ m) (roundtrip k ρ M).qdict = some (lookupD m M.qdict))
 
-/-- full-strength statements (false on the pinned tree, see the counterexamples) -/
-def C15_full : Prop := ∀ k : Kind, Preserves k
-def C15_tables_full : Prop := ∀ k : Kind, TablesRekeyed k
-
-/-- **re-keying, locked classes without graph support**: after `__setstate__ ∘ pickle ∘ __getstate__`
-the context map has exactly one entry per model, in registration order, under the NEW id, holding
-that model's translated contexts; no other key exists (no stale id). -/
-theorem C15_rekey (k : Kind) (hg : k.graph = false) (hl : k.locked = true) (ρ : Nat → Nat) (hρ : Inj ρ) (M : PM) :
+/-- **re-keying, every locked class** (with or without graph support): after
+`__setstate__ ∘ pickle ∘ __getstate__` the context map has exactly one entry per model, in registration
+order, under the NEW id, holding that model's translated contexts; no other key exists (no stale id). -/
+theorem C15_rekey (k : Kind) (hl : k.locked = true) (ρ : Nat → Nat) (hρ : Inj ρ) (M : PM) :
     (roundtrip k ρ M).ctx.map (·.1) = M.models.map ρ ∧
     (∀ m ∈ M.models, lookupD (ρ m) (roundtrip k ρ M).ctx = (lookupD m M.ctx).map ρ) ∧
     (∀ x, (∀ m ∈ M.models, ρ m ≠ x) → alookup x (roundtrip k ρ M).ctx = none) := by
-  rw [locked_ctx k hg hl ρ hρ M]
+  rw [locked_ctx k hl ρ hρ M]
   refine ⟨by simp [List.map_map, Function.comp_def], ?_, ?_⟩
   · intro m hm
     have := alookup_of_list ρ hρ (fun x => (lookupD x M.ctx).map ρ) m M.models hm
     show (alookup (ρ m) _).getD [] = _
     rw [this]; rfl
+  · intro x hx
+    exact alookup_of_list_none _ ρ x M.models hx
+
+/-- **re-keying, async `queued='model'`**: exactly one queue per model, in registration order, under
+the new id, with the model's pending entries; no stale key. -/
+theorem C15_queues (k : Kind) (hl : k.locked = false) (hq : k.qmodel = true) (ρ : Nat → Nat) (hρ : Inj ρ) (M : PM) :
+    (roundtrip k ρ M).qdict.map (·.1) = M.models.map ρ ∧
+    (∀ m ∈ M.models, alookup (ρ m) (roundtrip k ρ M).qdict = some (lookupD m M.qdict)) ∧
+    (∀ x, (∀ m ∈ M.models, ρ m ≠ x) → alookup x (roundtrip k ρ M).qdict = none) := by
+  rw [async_qdict k hl hq ρ M]
+  refine ⟨by simp [List.map_map, Function.comp_def], ?_, ?_⟩
+  · intro m hm
+    exact alookup_of_list ρ hρ (fun x => lookupD x M.qdict) m M.models hm
   · intro x hx
     exact alookup_of_list_none _ ρ x M.models hx
 
@@ -77,32 +88,32 @@ theorem C15_models (k : Kind) (ρ : Nat → Nat) (hρ : Inj ρ) (M : PM) :
     ∀ m, (roundtrip k ρ M).stateOf (ρ m) = M.stateOf m :=
   ⟨(roundtrip_models k ρ M).1, (roundtrip_models k ρ M).2, roundtrip_stateOf k ρ hρ M⟩
 
-/-- **tables, partial**: every class that re-keys (all but the locked graph classes and
-`queued='model'`) has all its tables under the new ids. -/
-theorem C15_tables_partial (k : Kind) (hk : k.rekeys = true) : TablesRekeyed k := by
+/-- **tables, full strength**: every predefined class has all the id-keyed tables it uses under the
+new ids after the round trip. -/
+theorem C15_tables_full (k : Kind) (hk : k.predefined = true) : TablesRekeyed k := by
   intro ρ hρ M m hm
   refine ⟨?_, ?_, ?_⟩
   · intro hl
-    have hg : k.graph = false := by
-      cases hg : k.graph with
-      | false => rfl
-      | true => simp [Kind.rekeys, hg, hl] at hk
-    rw [locked_ctx k hg hl ρ hρ M]
+    rw [locked_ctx k hl ρ hρ M]
     exact alookup_of_list ρ hρ (fun x => (lookupD x M.ctx).map ρ) m M.models hm
   · intro hg
     exact (C15_graphs k hg ρ hρ M).2.1 m hm
   · intro hq
-    simp [Kind.rekeys, hq] at hk
+    have hl : k.locked = false := by
+      cases hl : k.locked with
+      | false => rfl
+      | true => cases ha : k.asyncio <;> simp [Kind.predefined, hl, hq, ha] at hk
+    exact (C15_queues k hl hq ρ hρ M).2.1 m hm
 
-/-- **behaviour transfer, partial**: for every re-keying class the unpickled machine and the
-original react identically (up to the renaming of objects) to every history, and stay related. -/
-theorem C15_behaviour_partial (k : Kind) (hk : k.rekeys = true) : Preserves k := by
+/-- **behaviour transfer, full strength**: for every predefined class the unpickled machine and the
+original react identically (up to the renaming of objects) to every history. -/
+theorem C15_full (k : Kind) (hk : k.predefined = true) : Preserves k := by
   intro δ ρ hρ M hwf held h hh
   exact (sim_run δ hρ held h M _ (roundtrip_sim k hk ρ hρ M hwf) hh).1
 
 /-- … and the relation is an invariant of the joint run, so the statement composes over further
 snapshots and continuations -/
-theorem C15_behaviour_invariant (k : Kind) (hk : k.rekeys = true) (δ : Delta) (ρ : Nat → Nat) (hρ : Inj ρ)
+theorem C15_behaviour_invariant (k : Kind) (hk : k.predefined = true) (δ : Delta) (ρ : Nat → Nat) (hρ : Inj ρ)
     (M : PM) (hwf : WF k M) (held : List Nat) (h : List Ev) (hh : ∀ e ∈ h, e.onModels M.models) :
     Sim k ρ (run k δ held M h).1 (run k δ (held.map ρ) (roundtrip k ρ M) (h.map (renEv ρ))).1 :=
   (sim_run δ hρ held h M _ (roundtrip_sim k hk ρ hρ M hwf) hh).2
@@ -149,7 +160,7 @@ theorem C15_frame (k : Kind) (δ : Delta) (held : List Nat) (M : PM) (e : Ev) (h
       · first | rfl | (simp only [alookup_regen, hx, if_false])
       · rfl
 
-/-! ### the two class families without the property (pinned tree) -/
+/-! ### regression: the witnesses of the two former findings -/
 
 def exRho : Nat → Nat := (· + 100)
 theorem exRho_inj : Inj exRho := by intro a b h; unfold exRho at h; omega
@@ -160,34 +171,17 @@ def exLG : PM := { models := [1], mstate := [(1, 0)], mctx := [10], ctx := [(1, 
 /-- an async machine with `queued='model'` and one model -/
 def exQ : PM := { models := [1], mstate := [(1, 0)], qdict := [(1, [])] }
 
-/-- `LockedGraphMachine`: `GraphMachine.__getstate__/__setstate__` win the MRO, the context map keeps
-the OLD id as key; the copy's event enters no context (the original enters the lock) -/
-theorem C15_counterexample_locked_graph : ¬ Preserves { graph := true, locked := true } := by
-  intro h
-  have := h exDelta exRho exRho_inj exLG (by intro _ m hm; simp [exLG] at hm; subst hm; decide) []
-    [.trigger 0 1 0] (by intro e he; simp at he; subst he; simp [Ev.onModels, exLG])
-  revert this
-  decide
-
-/-- the same for the hierarchical variant at table level: the new id is not a key (so
-`remove_model` on the copy raises KeyError) -/
-theorem C15_counterexample_locked_graph_tables :
-    ¬ TablesRekeyed { graph := true, locked := true, nested := true } := by
-  intro h
-  have := (h exRho exRho_inj exLG 1 (by simp [exLG])).1 rfl
-  revert this
-  decide
-
-/-- async `queued='model'`: the queue dict keeps the old ids; every event on the copy is a KeyError -/
-theorem C15_counterexample_qmodel : ¬ Preserves { qmodel := true } := by
-  intro h
-  have := h exDelta exRho exRho_inj exQ (by intro hg; cases hg) []
-    [.trigger 0 1 0] (by intro e he; simp at he; subst he; simp [Ev.onModels, exQ])
-  revert this
-  decide
-
-theorem C15_full_false : ¬ C15_full := fun h => C15_counterexample_qmodel (h _)
-theorem C15_tables_full_false : ¬ C15_tables_full := fun h => C15_counterexample_locked_graph_tables (h _)
+example : ({ graph := true, locked := true } : Kind).predefined = true := by decide
+example : ({ qmodel := true, asyncio := true } : Kind).predefined = true := by decide
+-- LockedGraphMachine: the copy enters the (new) lock around the event, like the original
+example : (run { graph := true, locked := true } exDelta [] (roundtrip { graph := true, locked := true } exRho exLG)
+    [.trigger 0 101 0]).2 = [.done [110] true 1] := by decide
+example : (roundtrip { graph := true, locked := true, nested := true } exRho exLG).ctx = [(101, [110])] := by decide
+example : (roundtrip { graph := true, locked := true } exRho exLG).graphs = [(101, 1)] := by decide
+-- async queued='model': the queue is found under the new id
+example : (roundtrip { qmodel := true, asyncio := true } exRho exQ).qdict = [(101, [])] := by decide
+example : (run { qmodel := true, asyncio := true } exDelta [] (roundtrip { qmodel := true, asyncio := true } exRho exQ)
+    [.trigger 0 101 0]).2 = [.done [] true 1] := by decide
 
 /-! ### non-vacuity: a locked machine with two models (one with its own context), a fresh renaming,
 a history with a transition, a rejected event and a configuration change -/
@@ -195,16 +189,14 @@ a history with a transition, a rejected event and a configuration change -/
 def exL : PM :=
   { models := [1, 2], mstate := [(1, 0), (2, 0)], mctx := [10], ctx := [(1, [10]), (2, [10, 11])] }
 
-example : ({ locked := true } : Kind).rekeys = true := by decide
-example : WF { locked := true } exL := by intro h; cases h
-example : WF { graph := true } exLG := by intro _ m hm; simp [exLG] at hm; subst hm; decide
+example : ({ locked := true } : Kind).predefined = true := by decide
+example : WF { locked := true } exL := ⟨(by intro h; cases h), (by intro h; cases h)⟩
+example : WF { graph := true } exLG :=
+  ⟨(by intro _ m hm; simp [exLG] at hm; subst hm; decide), (by intro h; cases h)⟩
 example : (roundtrip { locked := true } exRho exL).ctx = [(101, [110]), (102, [110, 111])] := by decide
 example : (run { locked := true } exDelta [] exL [.trigger 0 2 0, .trigger 0 2 0, .regen, .trigger 0 1 0]).2 =
     [.done [10, 11] true 1, .done [10, 11] false 1, .regen, .done [10] true 1] := by decide
 example : (run { locked := true } exDelta [111] (roundtrip { locked := true } exRho exL)
     [.trigger 0 102 0, .trigger 0 101 0]).2 = [.blocked 111, .done [110] true 1] := by decide
--- the defect, concretely: stale key 1 kept, the new id 101 missing
-example : (roundtrip { graph := true, locked := true } exRho exLG).ctx = [(1, [110])] := by decide
-example : (roundtrip { graph := true, locked := true } exRho exLG).graphs = [(101, 1)] := by decide
 
 end TM
